@@ -1142,7 +1142,8 @@ def np_isinf(interp, st, a):
 def np_isfinite(interp, st, a):
     def f(x):
         if is_sym(x):
-            return True
+            c = getattr(interp, "nonfinite_when", {}).get(x.get_id())
+            return True if c is None else z_not(c)
         return not V.is_nonfinite(x)
     return elementwise1(interp, st, f, a, dtype="bool")
 
@@ -1622,6 +1623,20 @@ def np_dtype(interp, st, x):
     return DTYPES[norm_dtype(x)]
 
 
+DATETIME_UNITS = {"D": 24, "h": 1}   # abstract time stamps are integer HOURS: a unit coarser than that floors the value
+
+
+@native
+def np_datetime64(interp, st, v, unit=None):
+    v = interp.use(st, v)
+    if unit is None or DATETIME_UNITS.get(unit, 1) == 1:
+        return v
+    g = DATETIME_UNITS[unit]
+    if is_sym(v):
+        return v - (v % g)
+    return v - (v % g)
+
+
 @native
 def np_issubdtype(interp, st, a, b):
     raise Unsupported("np.issubdtype")
@@ -1666,7 +1681,7 @@ LIB = {
     "numpy.isfinite": np_isfinite, "numpy.cos": _np_ew("cos"), "numpy.sqrt": _np_ew("sqrt"), "numpy.log": _np_ew("log"),
     "numpy.median": np_median, "numpy.nanmedian": np_nanmedian, "numpy.unique": np_unique, "numpy.sort": np_sort, "numpy.where": np_where,
     "numpy.any": np_any, "numpy.all": np_all, "numpy.diff": np_diff, "numpy.searchsorted": np_searchsorted,
-    "numpy.log10": np_log10, "numpy.minimum": np_minimum, "numpy.maximum": np_maximum, "numpy.dtype": np_dtype, "numpy.datetime64": native(lambda interp, st, v, *a: v), "pandas.unique": pd_unique,
+    "numpy.log10": np_log10, "numpy.minimum": np_minimum, "numpy.maximum": np_maximum, "numpy.dtype": np_dtype, "numpy.datetime64": np_datetime64, "pandas.unique": pd_unique,
     "numba.prange": numba_prange,
     "scipy.special.digamma": _special("digamma", 1), "scipy.special.gammainc": _special("gammainc", 2),
     "scipy.special.ndtri": _special("ndtri", 1),
